@@ -7,6 +7,7 @@ package interp
 // the native replay of witnesses (observations of Sub results must agree).
 
 import (
+	"go/token"
 	"go/types"
 	"math"
 	"math/big"
@@ -61,6 +62,120 @@ func init() {
 			s, n := timeParts(args[0])
 			z := smt.IntConst(big.NewInt(0))
 			return boolVal(smt.And(smt.Eq(s, z), smt.Eq(n, z)))
+		},
+	} {
+		externals[k] = v
+	}
+}
+
+// ---- harness-controlled clock, timers and condition variables ----
+
+type timerRec struct {
+	deadline value // int64 seconds or nanoseconds on the harness clock (same unit as SetNow)
+	fn       value
+	stopped  bool
+	fired    bool
+	ptr      *value
+}
+
+const unixToInternalSec = 62135596800
+
+func clockNanos() value {
+	if cur.clock == nil {
+		return int64(0)
+	}
+	return cur.clock
+}
+
+func init() {
+	for k, v := range map[string]externalFn{
+		// sym.SetNow(ns int64): the value time.Now() reports (nanoseconds since the Unix epoch, must be >= 0 and < 2^62)
+		symPkg + "SetNow": func(fr *frame, args []value) value {
+			cur.clock = args[0]
+			return nil
+		},
+		// sym.FireTimers(): runs every armed timer whose deadline is <= the clock
+		symPkg + "FireTimers": func(fr *frame, args []value) value {
+			n := 0
+			for _, t := range cur.timers {
+				if t.stopped || t.fired {
+					continue
+				}
+				due := binop(token.LEQ, nil, t.deadline, clockNanos())
+				if dueb, ok := due.(bool); ok && !dueb {
+					continue
+				} else if dsv, ok := due.(sv); ok && !cur.branch(dsv.t) {
+					continue
+				}
+				t.fired = true
+				n++
+				call(fr.i, fr, 0, t.fn, nil)
+			}
+			return n
+		},
+		symPkg + "ArmedTimers": func(fr *frame, args []value) value {
+			n := 0
+			for _, t := range cur.timers {
+				if !t.stopped && !t.fired {
+					n++
+				}
+			}
+			return n
+		},
+		symPkg + "OnYield": func(fr *frame, args []value) value {
+			cur.yieldFn = args[0]
+			return nil
+		},
+		"time.Now": func(fr *frame, args []value) value {
+			// Time{wall: nsec, ext: sec + unixToInternal, loc: nil}; clock is in nanoseconds
+			ns := clockNanos()
+			sec := binop(token.QUO, nil, ns, int64(1_000_000_000))
+			nsec := binop(token.REM, nil, ns, int64(1_000_000_000))
+			ext := binop(token.ADD, nil, sec, int64(unixToInternalSec))
+			wall := conv(types.Typ[types.Uint64], types.Typ[types.Int64], nsec)
+			return structure{wall, ext, (*value)(nil)}
+		},
+		"time.AfterFunc": func(fr *frame, args []value) value {
+			dl := binop(token.ADD, nil, clockNanos(), args[0])
+			tt := fr.i.prog.ImportedPackage("time").Type("Timer").Type()
+			cell := zero(tt)
+			p := &cell
+			cur.timers = append(cur.timers, &timerRec{deadline: dl, fn: args[1], ptr: p})
+			return p
+		},
+		"(*time.Timer).Stop": func(fr *frame, args []value) value {
+			p := args[0].(*value)
+			for _, t := range cur.timers {
+				if t.ptr == p {
+					was := !t.stopped && !t.fired
+					t.stopped = true
+					return was
+				}
+			}
+			return false
+		},
+		"(*sync.Cond).Broadcast": func(fr *frame, args []value) value { cur.condSignalled = true; return nil },
+		"(*sync.Cond).Signal":    func(fr *frame, args []value) value { cur.condSignalled = true; return nil },
+		// Wait: the environment (harness callback registered with sym.OnYield) acts; Wait returns once a
+		// Broadcast/Signal happened.  If the environment reports that nothing will ever happen any more,
+		// the waiter is blocked forever (blockedPanic, caught by sym.RunUntilBlocked).
+		"(*sync.Cond).Wait": func(fr *frame, args []value) value {
+			cur.condSignalled = false
+			for round := 0; round < 8; round++ {
+				if cur.yieldFn == nil {
+					panic(blockedPanic{"sync.Cond.Wait with no environment"})
+				}
+				r := call(fr.i, fr, 0, cur.yieldFn, []value{"cond"})
+				if cur.condSignalled {
+					cur.condSignalled = false
+					return nil
+				}
+				if rb, ok := r.(bool); ok && !rb {
+					panic(blockedPanic{"sync.Cond.Wait: never signalled"})
+				}
+			}
+			abortPath("assume", "environment made too many silent steps")
+			return nil
 		},
 	} {
 		externals[k] = v
